@@ -6,6 +6,7 @@
 
 #include "Compiler/include/macro.hpp"
 #include "Compiler/include/scan.hpp"
+#include "VM/include/verif_hook.hpp"
 
 #define MIN(a, b) (((a) < (b)) ? (a) : (b))
 
@@ -40,6 +41,7 @@ int strToIntSilent(std::string tok) {
 }
 
 Theo::Token::Type lookahead(ExtractionState &es) {
+  THEO_VERIF_POINT(MACRO_EXTRACT, es.tok_pos, es.tokens.size());
   if (es.tok_pos >= es.tokens.size()) return Theo::Token::T_EOF;
   return es.tokens[es.tok_pos].t;
 }
@@ -412,6 +414,7 @@ struct MacroDetector {
 
   std::optional<Response> detect(std::vector<Token> &in) {
     for (std::vector<Token>::size_type i = 0; i < in.size(); i++) {
+      THEO_VERIF_POINT(MACRO_DETECT, i, in.size());
       auto p = parser.parse(std::ranges::subrange(in.begin() + i, in.end()));
       if (p.t == p.ACCEPT && check_constraint(p.st.split_sequence)) {
         return std::optional<Response>{
@@ -500,6 +503,7 @@ Theo::MacroApplicationResult Theo::apply_macros(
   // replace p macros
   bool changed = false;
   for (unsigned int pass = 0; pass < passes; pass++) {
+    THEO_VERIF_POINT(MACRO_PASS, pass, input.size());
     changed = false;
 
     for (auto p = prios.rbegin(); p != prios.rend(); p++) {
@@ -534,6 +538,7 @@ Theo::MacroApplicationResult Theo::apply_macros(
     }
     if (!changed) break;
   }
+  THEO_VERIF_POINT(MACRO_PASS_END, passes, changed);
 
   if (changed)
     res.errors.push_back(ParseError{
